@@ -53,7 +53,9 @@ def strat(tier):
         'overwrite': st.booleans(),
         'relative': st.booleans(),
         'part_file': st.sampled_from([None, None, 'custom.tmp']),
-        'api': st.sampled_from(['with', 'with', 'explicit']),
+        # 'reuse_aborted': the AtomicSaver object was used before, for an attempt whose body raised (part file removed, destination
+        # untouched); the save under test is the retry through the same object
+        'api': st.sampled_from(['with', 'with', 'with', 'explicit', 'explicit', 'reuse_aborted']),
         # a part file left by an earlier, crashed attempt (longer / shorter than the new content); taken over with overwrite_part=True
         # ('link_of_dest': what a crash between link() and unlink() of an overwrite=False save leaves behind - the part file is a
         #  second name of the destination's inode)
@@ -140,6 +142,10 @@ def _prepare(sandbox, old, stale=None, part_name='dest.bin.part', dest_name='des
             os.fsync(f.fileno())
 
 
+class _Aborted(Exception):
+    pass
+
+
 def _body(case, chunks, overwrite, buffering, sandbox):
     def body(ip):
         os.chdir(sandbox)
@@ -151,8 +157,21 @@ def _body(case, chunks, overwrite, buffering, sandbox):
         if case.get('stale_part'):
             kw['overwrite_part'] = True
         try:
-            if case['api'] == 'with':
-                with fileutils.atomic_save(dest, **kw) as f:
+            if case['api'] in ('with', 'reuse_aborted'):
+                saver = fileutils.atomic_save(dest, **kw)
+                if case['api'] == 'reuse_aborted':
+                    # history, not under test: runs outside the interposition layer and leaves the directory as it was prepared
+                    # (a stale part file taken over with overwrite_part=True is gone afterwards, like after any failed attempt)
+                    ip.active = False
+                    try:
+                        with saver as f0:
+                            f0.write('aborted attempt' if case['text_mode'] else b'aborted attempt')
+                            raise _Aborted()
+                    except _Aborted:
+                        pass
+                    finally:
+                        ip.active = True
+                with saver as f:
                     for c in chunks:
                         f.write(c)
                     if case.get('rewrite_head') and chunks and len(chunks[0]):
@@ -318,6 +337,8 @@ def run(case):
             out.label('body_closes_file:%s' % ('refused' if refused else 'completed'))
         if case.get('name_len'):
             out.label('name_len:%d%s' % (case['name_len'], ':refused' if refused else ''))
+        if case['api'] == 'reuse_aborted':
+            out.label('saver_object_reused_after_an_aborted_attempt')
         if text:
             out.label('text_mode')
         if any(len(c) >= 8192 for c in chunks):
